@@ -100,7 +100,20 @@ def impl_ctor(case):
             b = bspline(x, nord=case['nord'], bkspread=core.b2f(o['bkspread']), **kw)
     except Exception as e:
         return {'err': core.exc_kind(e)}, None
-    return {'ok': fb(b.breakpoints), 'dtype': str(b.breakpoints.dtype)}, b
+    out = {'ok': fb(b.breakpoints), 'dtype': str(b.breakpoints.dtype)}
+    # the object must own its knots: the caller's arrays are neither modified by the constructor nor kept as the knot vector
+    for name, arr, orig in (('x', x, case['x']), ('bkpt', kw.get('bkpt'), o.get('bkpt')), ('placed', kw.get('placed'), o.get('placed'))):
+        if arr is None:
+            continue
+        if not o.get('bkptF32') or name != 'bkpt':
+            if fb(arr) != list(orig):
+                out['modified'] = name
+        snap = fb(b.breakpoints)
+        arr *= 3.0
+        arr += 17.0
+        if fb(b.breakpoints) != snap:
+            out['aliased'] = name
+    return out, b
 
 
 def make_obj(case):
@@ -392,6 +405,14 @@ def check_ctor(ctx, case, impl, model, model_rat=None):
     ctx.count('ctor:%s:%s' % (opt, 'err:' + impl['err'] if 'err' in impl else 'ok:' + impl['dtype']))
     x = bf_(case['x'])
     k = case['nord']
+    if impl.get('modified'):
+        # observed on the unchanged tree: the min/max patching writes into the caller's bkpt array.  The statement of C08
+        # does not speak about the caller's arrays, so this is counted, not judged.
+        ctx.count('ctor:constructor-patched-the-callers-%s-array' % impl['modified'])
+    if impl.get('aliased'):
+        ctx.violate('ctor:knots-alias-caller-array:' + impl['aliased'],
+                    'the knot vector of the object changes when the caller later changes its %s array (nord=%d, option %s)' % (
+                        impl['aliased'], k, opt), case)
     # --- correspondence
     if 'err' in impl or 'err' in model:
         if impl.get('err') != model.get('err'):
